@@ -147,7 +147,7 @@ pub fn front_half(tier: &str, seed: u64, kf: &Kf) -> pdlv_core::evidence::Partia
     let thorough = tier == "thorough";
     let n = if thorough { 400_000 } else { 40_000 };
     let kf = kf.clone();
-    run_parallel("C10", seed, "C10/front", n, 1300, move |st, acc| {
+    run_parallel("C10", seed, "C10/front", n, 1700, move |st, acc| {
         let mut s = Src::new(st);
         let class = s.weighted(&[2, 3, 5, 4, 6]);
         let none = BTreeSet::new();
@@ -195,7 +195,15 @@ pub fn front_half(tier: &str, seed: u64, kf: &Kf) -> pdlv_core::evidence::Partia
                 // accepted descriptions, each backend on its own profile
                 let (pname, backends): (&str, &[&str]) = *s.pick(&[("rust", &["rust"][..]), ("python", &["python"][..]), ("cxx", &["cxx"][..]), ("java", &["java"][..]), ("rust-rt", &["rust"][..])]);
                 let (d, _) = gen_desc(&st[8..], &Profile::by_name(pname), Some(s.below(N_STRATA)), s.bool());
-                let text = plain(&d);
+                // half of the accepted descriptions are laid out with random white space (tabs, carriage returns,
+                // comments, radix): the concrete syntax must not matter to any stage either
+                let text = if s.bool() {
+                    let mut ls = Src::new(&st[1200..]);
+                    let tc = ls.bool();
+                    random_layout(&tokens(&d), &mut ls, tc).text
+                } else {
+                    plain(&d)
+                };
                 let mut tags: BTreeSet<String> = [format!("profile:{pname}")].into_iter().collect();
                 tags.extend(pdlv_core::dtags::desc_tags(&d));
                 match pipeline(&text, backends, &kf, acc, &format!("accepted:{pname}"), &tags)? {
